@@ -10,6 +10,7 @@
 
 mod call;
 mod fobj;
+mod foreign;
 mod interp;
 mod obj;
 mod sched;
